@@ -128,6 +128,20 @@ pub fn run(args: &[String]) -> Outcome
             extra_ok = drops == 1;
             note = format!("\"payload_drops_after_tree\":{},\"expected_drops\":1", drops);
         }
+        // an entity watched by persistent reactor X is despawned outside any tree; the root command of the next tree targets X
+        // itself: X runs for the despawn AND for the command (the polled reaction is not dropped)
+        "poll_same_system" =>
+        {
+            let l = log.clone();
+            let watched = world.spawn_empty().id();
+            let x = world.react(|rc| rc.on_persistent(despawn(watched), move |ev: DespawnEvent| { l.lock().unwrap().push(if ev.get().is_ok() { 7 } else { 1 }); }));
+            world.despawn(watched);
+            world.queue_probe(x);
+            let mut v = log.lock().unwrap().clone();
+            v.sort();
+            *log.lock().unwrap() = v;
+            expected = vec![1, 7];
+        }
         _ => { eprintln!("unknown runner scenario {}", what); std::process::exit(3); }
     }
     let v = log.lock().unwrap().clone();
